@@ -1131,4 +1131,123 @@ theorem vPath_exact {v w : PyVal} (h : vPath v = .ok w) :
   | path s => simp [vPath] at h; subst h; exact Or.inl ⟨rfl, rfl⟩
   | _ => simp [vPath] at h
 
+/-! ### histories -/
+
+theorem nodeItems_setVal_ne (d : Bool) (g : Graph) (n k : Nat) (v : PyVal) (m : Nat) (h : m ≠ n) :
+    nodeItems d (g.setVal n k v) m = nodeItems d g m := by
+  unfold Graph.setVal
+  cases hn : g.nodes[n]? with
+  | none => rfl
+  | some nd =>
+    simp only [nodeItems, Graph.args]
+    rw [List.getElem?_set_ne (Ne.symm h)]
+
+theorem flagsOk_setVal (I : Impl) (g : Graph) (vis : List Nat) (h : FlagsOk I g vis) (n k : Nat) (v : PyVal)
+    (hn : n ∉ vis) : FlagsOk I (g.setVal n k v) vis := by
+  intro m hm
+  have hne : m ≠ n := fun e => hn (e ▸ hm)
+  have h1 := h m hm
+  unfold nodeMissing succs at *
+  rw [nodeItems_setVal_ne _ g n k v m hne, nodeItems_setVal_ne _ g n k v m hne]
+  exact h1
+
+theorem hstep_assign_cases (I : Impl) (s : HState) (n k : Nat) (v : PyVal) :
+    ((hstep I s (.assign n k v)).2 = s) ∨
+    (∃ w, (hstep I s (.assign n k v)).1 = .stored ∧ (hstep I s (.assign n k v)).2 = { s with g := s.g.setVal n k w }) := by
+  simp only [hstep]
+  split
+  · exact Or.inl rfl
+  · split
+    · exact Or.inl rfl
+    · split
+      · exact Or.inl rfl
+      · split
+        · exact Or.inl rfl
+        · exact Or.inl rfl
+        · split
+          · exact Or.inl rfl
+          · exact Or.inr ⟨_, rfl, rfl⟩
+
+theorem hstep_assign_not_accepted (I : Impl) (s : HState) (n k : Nat) (v : PyVal) :
+    (hstep I s (.assign n k v)).1 ≠ .accepted := by
+  simp only [hstep]
+  repeat' split
+  all_goals simp
+
+/-- one operation of a history -/
+theorem hstep_sound (I : Impl) (s : HState) (op : HOp) (hinv : FlagsOk I s.g s.flags)
+    (hadm : ∀ n k v, op = .assign n k v → n ∉ s.flags) :
+    (I.resetOnFail = true → FlagsOk I (hstep I s op).2.g (hstep I s op).2.flags) ∧
+    (∀ n, op = .submit n → (hstep I s op).1 = .accepted →
+        ∀ m, Reach (succs I s.g) n m → nodeMissing s.g m = false) ∧
+    ((hstep I s op).1 ≠ .accepted → (hstep I s op).2.registry = s.registry) ∧
+    (∀ n, op = .submit n → (hstep I s op).1 = .accepted → (hstep I s op).2.registry = n :: s.registry) := by
+  cases op with
+  | assign n k v =>
+    refine ⟨?_, ?_, ?_, ?_⟩
+    · intro _
+      rcases hstep_assign_cases I s n k v with h | ⟨w, _, h⟩
+      · rw [h]; exact hinv
+      · rw [h]; exact flagsOk_setVal I s.g s.flags hinv n k w (hadm n k v rfl)
+    · intro n' h; cases h
+    · intro _
+      rcases hstep_assign_cases I s n k v with h | ⟨w, _, h⟩ <;> rw [h]
+    · intro n' h; cases h
+  | submit n =>
+    have triv : ∀ (o : HOut), o ≠ .accepted →
+        (I.resetOnFail = true → FlagsOk I ((o, s) : HOut × HState).2.g ((o, s) : HOut × HState).2.flags) ∧
+        (∀ n', HOp.submit n = .submit n' → ((o, s) : HOut × HState).1 = .accepted →
+            ∀ m, Reach (succs I s.g) n' m → nodeMissing s.g m = false) ∧
+        (((o, s) : HOut × HState).1 ≠ .accepted → ((o, s) : HOut × HState).2.registry = s.registry) ∧
+        (∀ n', HOp.submit n = .submit n' → ((o, s) : HOut × HState).1 = .accepted →
+            ((o, s) : HOut × HState).2.registry = n' :: s.registry) := by
+      intro o ho
+      exact ⟨fun _ => hinv, fun _ _ h => absurd h ho, fun _ => rfl, fun _ _ h => absurd h ho⟩
+    simp only [hstep]
+    by_cases hj : n ∈ s.jobAttr
+    · rw [if_pos hj]; exact triv _ (by simp)
+    · rw [if_neg hj]
+      cases hnd : s.g.nodes[n]? with
+      | none => exact triv _ (by simp)
+      | some nd =>
+        simp only
+        by_cases ht : (!s.g.tasks.contains nd.cls) = true
+        · rw [if_pos ht]; exact triv _ (by simp)
+        · rw [if_neg ht]
+          by_cases hok : (validateFrom I s.g s.flags n).1 = .ok
+          · rw [if_pos hok]
+            have hs := validateFrom_ok_spec I s.g s.flags hinv n hok
+            refine ⟨fun _ => hs.2, ?_, ?_, ?_⟩
+            · intro n' hn' _ m hr
+              cases hn'
+              exact hs.1 m hr
+            · intro h; exact absurd rfl h
+            · intro n' hn' _
+              cases hn'
+              rfl
+          · rw [if_neg hok]
+            refine ⟨?_, ?_, ?_, ?_⟩
+            · intro hI
+              show FlagsOk I s.g (validateFrom I s.g s.flags n).2
+              rw [validateFrom_reset hI hok]
+              exact hinv
+            · intro _ _ h; simp at h
+            · intro _; rfl
+            · intro _ _ h; simp at h
+
+/-- all operations of a history -/
+theorem hrun_sound (I : Impl) (hI : I.resetOnFail = true) : ∀ (ops : List HOp) (s : HState),
+    FlagsOk I s.g s.flags → Admissible I s ops →
+    ∀ t ∈ hrun I s ops,
+      (∀ n, t.2.1 = .submit n → t.2.2 = .accepted → ∀ m, Reach (succs I t.1.g) n m → nodeMissing t.1.g m = false) ∧
+      (t.2.2 ≠ .accepted → (hstep I t.1 t.2.1).2.registry = t.1.registry) ∧
+      (∀ n, t.2.1 = .submit n → t.2.2 = .accepted → (hstep I t.1 t.2.1).2.registry = n :: t.1.registry)
+  | [], _, _, _, t, ht => by simp [hrun] at ht
+  | op :: ops, s, hinv, hadm, t, ht => by
+    simp only [hrun, List.mem_cons] at ht
+    have hs := hstep_sound I s op hinv hadm.1
+    rcases ht with rfl | ht
+    · exact ⟨hs.2.1, hs.2.2.1, hs.2.2.2⟩
+    · exact hrun_sound I hI ops (hstep I s op).2 (hs.1 hI) hadm.2 t ht
+
 end XpmVerif.Validate
